@@ -78,7 +78,7 @@ def renrace_case(procs=2):
     p1 = dict(part(51, 0, False, False, True), pnew=False)
     return {"kind": "gated", "gate": "renrace", "procs": procs, "nds": 1, "groups": [], "readers": 0, "watch": [51], "threads": [
         [{"t": "create", "d": 50, "isnew": True}, {"t": "batchh", "parts": [p0], "after": [[1, 0]]}],
-        [{"t": "rename", "d": 50, "to": 51, "mode": "move", "after": [[0, 0]]}, {"t": "batch", "parts": [p1]}]]}
+        [{"t": "rename", "d": 50, "to": 51, "mode": "move", "after": [[0, 0]]}, {"t": "batch", "parts": [p1], "held0": True}]]}
 
 
 def burst_case(procs=8, clients=6, rounds=16):
